@@ -1,7 +1,7 @@
 """C14 - the synchronous API is observationally identical to the asynchronous one (F6 sibling delegation)."""
 import json, re
 from facts import walk, callee_of, call_args, loc
-import hirq, anchors
+import hirq, anchors, absx, sem
 
 EXPLANATION = ("For every LdapConn method with a same-named Ldap method: the body is either (A) one call of Ldap::<same name> on the "
                "connection's own handle with the method's own parameters in order (through at most the transparent IntoAdapterVec::into), "
@@ -63,13 +63,9 @@ def run(ctx):
         check_signature(ctx, f, m, sp, ap)
         blocks = [n for n, c in walk(B.root) if n['k'] == 'MethodCall' and (callee_of(n) or '').endswith('Runtime::block_on')]
         direct = [n for n, c in walk(B.root) if n['k'] == 'MethodCall' and (callee_of(n) or '') == ap]
-        if blocks:
-            check_form_a(ctx, f, B, m, ap, blocks)
-        elif direct:
-            # synchronous accessor delegating by a plain call
-            ok = len(direct) == 1 and B.origin(direct[0]['recv']) == (('param', 'self'), (('field', 'ldap'),)) and final_expr(B.root) is direct[0] \
-                and [B.origin(a) for a in direct[0]['args']] == param_origins(B)[1:]
-            ctx.add('D.delegates', m, loc(B.root), ok, 'LdapConn::%s is not exactly `self.ldap.%s(<own parameters>)`' % (m, m))
+        calls_sibling = any(n['k'] in ('Call', 'MethodCall') and callee_of(n) == ap for n, c in walk(B.root))
+        if blocks or direct or calls_sibling:
+            check_delegation(ctx, f, B, m, ap, ('field', SELF, 'ldap'), ('field', SELF, 'rt'))
         else:
             a = canon(f.hir[ap]['body'], False)
             s = canon(f.hir[sp]['body'], True)
@@ -91,22 +87,78 @@ def run(ctx):
         B = hirq.Body(f, f.hir[p])
         ctx.analysed['bodies'].add(p)
         n_es += 1
-        blocks = [n for n, c in walk(B.root) if n['k'] == 'MethodCall' and (callee_of(n) or '').endswith('Runtime::block_on')]
-        ok = len(blocks) == 1 and B.origin(blocks[0]['recv']) == (('param', 'self'), (('field', 'conn'), ('field', 'rt'))) and final_expr(B.root) is blocks[0]
-        inner = async_block_call(blocks[0]) if ok else None
-        ok = ok and inner is not None and (callee_of(inner) or '').endswith('SearchStream::<\'a, S, A>::' + target) \
-            and B.origin(inner['recv']) == (('param', 'self'), (('field', 'stream'),)) and not inner['args']
-        ctx.add('E.delegates', m, loc(B.root), ok, 'EntryStream::%s is not block_on(self.stream.%s())' % (m, target))
+        tp = [q for q in f.hir if q.startswith('ldap3::search::SearchStream::<') and q.endswith('::' + target)]
+        if len(tp) != 1:
+            ctx.fail('anchor-missing', 'SearchStream::' + target, '', 'async sibling not found'); continue
+        check_delegation(ctx, f, B, m, tp[0], ('field', SELF, 'stream'), ('field', ('field', SELF, 'conn'), 'rt'), rule='E')
     p = ES + 'last_id'
     if p in f.hir:
         B = hirq.Body(f, f.hir[p])
         n_es += 1
-        t = tail_expr(B.root)
-        ok = t['k'] == 'MethodCall' and callee_of(t) == ASYNC + 'last_id' and t['recv']['k'] == 'MethodCall' and (callee_of(t['recv']) or '').endswith('::ldap_handle') \
-            and B.origin(t['recv']['recv']) == (('param', 'self'), (('field', 'stream'),))
+        ok = False
+        louts, _I = sem.paths(f, B)
+        for o in louts:
+            v = sem.strip_site(o.val) if o.kind in ('val', 'ret') else ('unk',)
+            ok = v[0] == 'call' and v[1] == ASYNC + 'last_id' and len(v[2]) == 1 and v[2][0][0] == 'call' and v[2][0][1].endswith('::ldap_handle') \
+                and v[2][0][2] == (('field', SELF, 'stream'),)
         ctx.add('E.delegates', 'last_id', loc(B.root), ok, 'EntryStream::last_id is not self.stream.ldap_handle().last_id()')
     ctx.floor('E', 'EntryStream delegations', n_es, 3)
 
+
+SELF = ('param', 'self')
+
+def block_on_summary(I, cal, args, node, st):
+    """Runtime::block_on(fut) evaluates the future: an `async move { .. }` block is run in place, any other future value is
+    awaited.  The value is what an asynchronous caller would get from `.await`."""
+    if cal.endswith('Runtime::block_on') and len(args) == 2:
+        fut = args[1]
+        s1 = st.event(('block_on', args[0], node))
+        if fut[0] == 'closure':
+            outs = []
+            for o in I.apply_closure(fut, [('unk', 'cx')], s1, node):
+                outs.append(o)
+            return outs
+        return [absx.Out('val', ('await', fut), s1.event(('await', fut, node)))]
+    return None
+
+def check_delegation(ctx, f, B, m, ap, recv_place, rt_place, rule='D'):
+    """Path-level: every path makes exactly one call of the asynchronous sibling, on the right receiver, with the method's own
+    parameters in order, drives it on the right runtime, and returns what that call produced (unmodified, or wrapped as
+    EntryStream { stream, conn: self } for the streaming searches), with no other effect."""
+    outs, _I = sem.paths(f, B, summaries=[block_on_summary], combinators=True)
+    params = [t for i, t in sorted((d['idx'], ('param', d['name'])) for b, d in B.defs.items() if d['kind'] == 'param' and not d['proj'])][1:]
+    n = 0
+    for o in outs:
+        if o.kind not in ('val', 'ret'):
+            continue
+        n += 1
+        cs = sem.calls(o, lambda c: c == ap)
+        if len(cs) != 1:
+            ctx.fail(rule + '.delegates', m, loc(B.root), 'a path of %s calls %s %d times' % (m, ap.rsplit('::', 1)[-1], len(cs))); continue
+        i, cal, args, node = cs[0]
+        ctx.add(rule + '.callee', m, loc(node), True, '')
+        ctx.add(rule + '.receiver', m, loc(node), args[0] == recv_place, 'the delegate call is made on %s, not on %s' % (absx.fmt(args[0])[:60], absx.fmt(recv_place)))
+        ctx.add(rule + '.arguments-in-order', m, loc(node), list(args[1:]) == params,
+                'arguments passed to %s are %s, expected the parameters in order %s' % (ap.rsplit('::', 1)[-1], [absx.fmt(a)[:30] for a in args[1:]], [absx.fmt(p) for p in params]))
+        bos = [e for e in o.st.ev if e[0] == 'block_on']
+        call_t = ('call', cal, args, node.get('id'))
+        is_async = 'async fn body' in ((f.hir[ap]['body'].get('ty') or '') if f.hir[ap]['body'].get('k') == 'Closure' else '')
+        if is_async:
+            ctx.add(rule + '.own-runtime', m, loc(node), len(bos) == 1 and bos[0][1] == rt_place, 'the future is not driven (exactly once) on %s' % absx.fmt(rt_place))
+            res = ('await', call_t)
+        else:
+            res = call_t
+        v = o.val
+        ok = v == res or (not is_async and v == SELF and recv_place[0] == 'field')
+        if not ok and v[0] == 'ctor' and v[1] == 'Ok' and v[2] and v[2][0][0] == 'struct' and v[2][0][1].endswith('EntryStream'):
+            fl = dict(v[2][0][2])
+            ok = fl.get('stream') == ('variant', res, 'Ok', 0) and fl.get('conn') == SELF
+        if not ok and sem.is_err_result(v):
+            ok = sem.has(v, lambda x: x == res) and sem.failed(o, lambda x: x == res)
+        ctx.add(rule + '.returns-result', m, loc(B.root), ok, 'the value of the delegate call is not returned unmodified (or wrapped as EntryStream { stream, conn: self }): %s' % absx.fmt(v)[:100])
+        extra = [e for e in o.st.ev if e[0] == 'store'] + [c for c in sem.calls(o, lambda c: (c.startswith('ldap3::') or c.startswith('<ldap3::')) and c != ap and not hirq.is_transparent(c))]
+        ctx.add(rule + '.no-extra-effects', m, loc(B.root), not extra, '%s does something besides delegating: %s' % (m, [absx.fmt(e[1])[:40] if e[0] == 'store' else e[1] for e in extra][:3]))
+    ctx.add(rule + '.delegates', m + '|paths', loc(B.root), n >= 1, 'no path of %s returns' % m)
 
 def param_origins(B):
     ps = sorted(((d['idx'], d['name']) for b, d in B.defs.items() if d['kind'] == 'param' and not d['proj']))
